@@ -5,6 +5,7 @@
 From Coq Require Import List NArith Bool Lia ZifyN ZifyNat ZifyBool.
 From Frugal Require Import Bytes Wire Values Desc Spec Routines Encode Checks.
 From Frugal.gen Require Import Params Tables.
+From Frugal.proofs Require Import ParamsSplit.
 Import ListNotations.
 Open Scope N_scope.
 
@@ -142,13 +143,10 @@ Qed.
 (* the generated constants                                              *)
 (* ------------------------------------------------------------------ *)
 
-Lemma params_codes : params_ok = true -> codes_ok = true.
-Proof.
-  unfold params_ok. intros H.
-  repeat (apply andb_true_iff in H; destruct H as [H _]). exact H.
-Qed.
+Lemma params_codes : enc_params_ok = true -> codes_ok = true.
+Proof. exact enc_codes. Qed.
 
-Lemma codes_eqs : params_ok = true ->
+Lemma codes_eqs : enc_params_ok = true ->
   tSTOP = cSTOP /\ tBOOL = cBOOL /\ tBYTE = cBYTE /\ tDOUBLE = cDOUBLE /\ tI16 = cI16
   /\ tI32 = cI32 /\ tI64 = cI64 /\ tSTRING = cSTRING /\ tSTRUCT = cSTRUCT /\ tMAP = cMAP
   /\ tSET = cSET /\ tLIST = cLIST.
@@ -557,7 +555,7 @@ Qed.
 (* (1) the wire code of the denotation is the declared wire type        *)
 (* ------------------------------------------------------------------ *)
 
-Lemma code_of_denote : forall env, params_ok = true ->
+Lemma code_of_denote : forall env, enc_params_ok = true ->
   forall v t, has_type env t v = true -> slot_ok env t v = true ->
   code_of (denote env t v) = wt t.
 Proof.
@@ -596,7 +594,7 @@ Qed.
 
 (* the nested [if]s of appendStruct are [emits] *)
 Lemma impl_field_spec : forall env f v,
-  params_ok = true -> field_ok env f = true -> has_type env (fty f) v = true ->
+  enc_params_ok = true -> field_ok env f = true -> has_type env (fty f) v = true ->
   (has_type env (fty f) v = true -> slot_ok env (fty f) v = true ->
    append_any env (fty f) v = put (denote env (fty f) v)) ->
   impl_field env f v = cat_map put_field (spec_field env f v).
@@ -610,7 +608,7 @@ Proof.
   rewrite (code_of_denote env HP v (fty f) Hty Hs), (IH Hty Hs). reflexivity.
 Qed.
 
-Theorem encode_refines_gen : forall env, params_ok = true -> tables_ok = true -> env_ok env = true ->
+Theorem encode_refines_gen : forall env, enc_params_ok = true -> tables_ok = true -> env_ok env = true ->
   forall v t, has_type env t v = true -> slot_ok env t v = true ->
   append_any env t v = put (denote env t v).
 Proof.
@@ -689,7 +687,7 @@ Proof.
     + intros H1 H2. apply IH; assumption.
 Qed.
 
-Theorem encode_refines : forall env sid v, params_ok = true -> tables_ok = true -> env_ok env = true ->
+Theorem encode_refines : forall env sid v, enc_params_ok = true -> tables_ok = true -> env_ok env = true ->
   has_type env (TStruct sid) v = true ->
   append_struct env sid v = put (denote env (TStruct sid) v).
 Proof.
@@ -732,7 +730,7 @@ Lemma lt31_0 : lt31 (len (@nil val)) = true.
 Proof. reflexivity. Qed.
 
 (* a declared wire type is a non-negative int8 *)
-Lemma wt_lt128 : params_ok = true -> forall t, (wt t <? 128) = true.
+Lemma wt_lt128 : enc_params_ok = true -> forall t, (wt t <? 128) = true.
 Proof.
   intros HP.
   destruct (codes_eqs HP) as (E0 & E1 & E2 & E3 & E4 & E5 & E6 & E7 & E8 & E9 & E10 & E11).
@@ -741,7 +739,7 @@ Proof.
     rewrite ?E1, ?E2, ?E3, ?E4, ?E5, ?E6, ?E7, ?E8, ?E9, ?E10, ?E11; reflexivity.
 Qed.
 
-Lemma denote_wf_gen : forall env, params_ok = true -> env_ok env = true ->
+Lemma denote_wf_gen : forall env, enc_params_ok = true -> env_ok env = true ->
   forall v t, has_type env t v = true -> slot_ok env t v = true -> holders_empty v = true ->
   wf (denote env t v) = true.
 Proof.
@@ -828,14 +826,14 @@ Qed.
 
 Theorem denote_wf : forall env t v,
   has_type env t v = true -> slot_ok env t v = true -> holders_empty v = true ->
-  params_ok = true -> env_ok env = true ->
+  enc_params_ok = true -> env_ok env = true ->
   wf (denote env t v) = true.
 Proof. intros env t v H1 H2 H3 HP HE. exact (denote_wf_gen env HP HE v t H1 H2 H3). Qed.
 
 (* top-level form: a typed struct value is always in an admissible position *)
 Corollary denote_wf_struct : forall env sid v,
   has_type env (TStruct sid) v = true -> holders_empty v = true ->
-  params_ok = true -> env_ok env = true ->
+  enc_params_ok = true -> env_ok env = true ->
   wf (denote env (TStruct sid) v) = true.
 Proof.
   intros env sid v Hty Hh HP HE. apply denote_wf; try assumption.
